@@ -122,7 +122,8 @@ func (p *Process) run() int {
 	if err := p.validateProcess(); err != nil {
 		log.Error().Err(err).Msgf(`Failed to run command ["%v"] for process %s`, strings.Join(p.getCommand(), `" "`), p.getName())
 		p.onProcessEnd(types.ProcessStateError)
-		return 1
+		// 1, unless the instance had been ended before (stopped while pending)
+		return p.getExitCode()
 	}
 
 	p.onProcessStart()
@@ -138,7 +139,7 @@ loop:
 			log.Error().Err(err).Msgf(`Failed to run command ["%v"] for process %s`, strings.Join(p.getCommand(), `" "`), p.getName())
 			p.logBuffer.Write(err.Error())
 			p.onProcessEnd(types.ProcessStateError)
-			return 1
+			return p.getExitCode()
 		}
 
 		p.setStartTime(time.Now())
